@@ -41,8 +41,8 @@ def unit_stream(rng, n):
     return units
 
 
-def run_history(ops):
-    """Execute ops on the real Parser / ParserQueue; returns (lines, failure)."""
+def _session(ops):
+    """Execute ops on the real Parser / ParserQueue, pausing after every op; returns (lines, failure)."""
     import mido
     from mido.backends._parser_queue import ParserQueue
     p = mido.Parser()
@@ -136,6 +136,7 @@ def run_history(ops):
         except Exception as e:
             lines.append('err ' + exc_name(e))
             fail = fail or f'{k} raised {type(e).__name__}: {e}'
+        yield
     if clean and fail is None:
         try:
             rest = [msgs.canon_msg(m) for m in p] if pq is None else [msgs.canon_msg(m) for m in pq.iterpoll()]
@@ -149,6 +150,44 @@ def run_history(ops):
         except Exception as e:
             fail = f'draining / parse_all raised {type(e).__name__}: {e}'
     return lines, fail
+
+
+def _drive(gen):
+    try:
+        while True:
+            next(gen)
+    except StopIteration as st:
+        return st.value
+
+
+def run_history(ops):
+    if ops and ops[0] == 'PAIR':
+        return run_pair(ops[1], ops[2], ops[3])
+    return _drive(_session(ops))
+
+
+def run_pair(ops_a, ops_b, order):
+    """Two independent parsers used alternately (order: a string of 'a'/'b'): each must behave as if it were alone."""
+    ga, gb = _session(ops_a), _session(ops_b)
+    done = {}
+    for who in order:
+        g = ga if who == 'a' else gb
+        if who in done:
+            continue
+        try:
+            next(g)
+        except StopIteration as st:
+            done[who] = st.value
+    for who, g in (('a', ga), ('b', gb)):
+        if who not in done:
+            done[who] = _drive(g)
+    (la, fa), (lb, fb) = done['a'], done['b']
+    fail = None
+    if fa:
+        fail = 'parser A, used alternately with an independent parser B: ' + fa
+    elif fb:
+        fail = 'parser B, used alternately with an independent parser A: ' + fb
+    return (la, lb), fail
 
 
 def _chunk(hs):
@@ -247,6 +286,20 @@ def gen(ck):
                     else:
                         ops.append(('iternew',)); niter += 1
         hs.append(ops)
+    # two independent parsers (or parser queues) used alternately: no state may be shared between objects
+    for _ in range(1500 if not thorough else 20000):
+        pair = []
+        for _p in range(2):
+            units = unit_stream(rng, rng.randint(1, 5))
+            queue = rng.random() < 0.3
+            ops = []
+            for u in units:
+                ops.append(('pput' if queue else 'feed', list(u), rng.choice(kinds)))
+                if rng.random() < 0.4:
+                    ops.append(rng.choice([('ppoll',), ('piterpoll',)]) if queue else rng.choice([('get',), ('pending',)]))
+            pair.append(ops)
+        order = ''.join(rng.choice('ab') for _ in range(len(pair[0]) + len(pair[1]) + 2))
+        hs.append(['PAIR', pair[0], pair[1], order])
     # whole random streams in one call as bytes / bytearray (the container type must not matter)
     for _ in range(1500 if not thorough else 20000):
         stream = parsing.random_stream(rng, rng.randint(1, 40), rng.choice([0.2, 0.4]))
@@ -277,7 +330,20 @@ def run(ck):
     hs = gen(ck)
     res = [r for part in pool_map(_chunk, list(chunks(hs, 2000))) for r in part]
     reqs, impl = [], []
+    flat = []
     for h, (lines, fail) in zip(hs, res):
+        if h and h[0] == 'PAIR':
+            ck.note_case(repr(h), nontrivial=True)
+            ck.count('two_parsers_alternately')
+            if fail:
+                ck.oracle_fail({'ops': h}, fail)
+            flat.append((h[1], lines[0]))
+            flat.append((h[2], lines[1]))
+        else:
+            flat.append((h, lines))
+    for h, (lines, fail) in zip(hs, res):
+        if h and h[0] == 'PAIR':
+            continue
         feeds = sum(1 for o in h if o[0] in ('feed', 'feedbyte', 'pput'))
         retr = sum(1 for o in h if o[0] in ('get', 'iternext', 'ppoll', 'piterpoll', 'pending'))
         ck.note_case(repr(h), nontrivial=feeds >= 2 or retr >= 1)
@@ -289,6 +355,7 @@ def run(ck):
                 ck.count('impl:' + l)
         if fail:
             ck.oracle_fail({'ops': h}, fail)
+    for h, lines in flat:
         reqs.append('preset')
         impl.append('ok')
         for o, l in zip(h, lines):
@@ -303,7 +370,10 @@ def run(ck):
 
 
 def oracle(case):
-    ops = [tuple(o) if not isinstance(o, tuple) else o for o in case['ops']]
+    ops = case['ops']
+    if ops and ops[0] == 'PAIR':
+        return run_pair([tuple(o) for o in ops[1]], [tuple(o) for o in ops[2]], ops[3])[1]
+    ops = [tuple(o) if not isinstance(o, tuple) else o for o in ops]
     return run_history(ops)[1]
 
 
